@@ -10,6 +10,11 @@ import (
 	"bytes"
 	"encoding/json"
 	"fmt"
+	"sync"
+	"sync/atomic"
+
+	"github.com/benhoyt/goawk/internal/compiler"
+	"github.com/benhoyt/goawk/interp"
 
 	"github.com/benhoyt/goawk/verifharness/awkast"
 	"github.com/benhoyt/goawk/verifharness/hx"
@@ -85,8 +90,44 @@ func judge(c *caseT, which string, src string, res *hx.RunResult) *hx.Outcome {
 	return nil
 }
 
+// Executed-instruction counts per opcode, collected through the verif step hook:
+// a vacuity guard (an opcode the families never execute is a compiler/VM path
+// the check does not reach) reported in the evidence.
+var (
+	opCounts [256]atomic.Int64
+	hookOnce sync.Once
+)
+
+func installHook() {
+	hookOnce.Do(func() {
+		interp.SetVerifStepHook(func(i interp.VerifStepInfo) {
+			if int(i.Op) >= 0 && int(i.Op) < len(opCounts) {
+				opCounts[int(i.Op)].Add(1)
+			}
+		})
+	})
+}
+
+// Finish adds the opcode coverage to the replay summary.
+func Finish(sum *hx.Summary) {
+	seen, unseen := []string{}, []string{}
+	for op := compiler.Nop + 1; op < compiler.EndOpcode; op++ {
+		if opCounts[int(op)].Load() > 0 {
+			seen = append(seen, op.String())
+		} else {
+			unseen = append(unseen, op.String())
+		}
+	}
+	if sum.Extra == nil {
+		sum.Extra = map[string]any{}
+	}
+	sum.Extra["opcodes_executed"] = len(seen)
+	sum.Extra["opcodes_never_executed"] = unseen
+}
+
 // Replay is the hx.Replayer for Gen_AwkSem exports.
 func Replay(raw json.RawMessage) hx.Outcome {
+	installHook()
 	var c caseT
 	if err := json.Unmarshal(raw, &c); err != nil {
 		return hx.Outcome{Skipped: true, Note: "bad case: " + err.Error()}
